@@ -1822,37 +1822,12 @@ fn eval_in_list_in_list(list: &Value, items: &[Value]) -> Value {
 
 ///
 fn eval_in_negated_list(left: &Value, items: &[Value]) -> Value {
-  for item in items {
-    match item {
-      inner @ Value::Number(_) | inner @ Value::String(_) => {
-        if let Value::Boolean(true) = eval_in_equal(left, inner) {
-          return Value::Boolean(false);
-        }
-      }
-      Value::UnaryLess(inner) => {
-        if let Value::Boolean(true) = eval_in_unary_less(left, inner.borrow()) {
-          return Value::Boolean(false);
-        }
-      }
-      Value::UnaryLessOrEqual(inner) => {
-        if let Value::Boolean(true) = eval_in_unary_less_or_equal(left, inner.borrow()) {
-          return Value::Boolean(false);
-        }
-      }
-      Value::UnaryGreater(inner) => {
-        if let Value::Boolean(true) = eval_in_unary_greater(left, inner.borrow()) {
-          return Value::Boolean(false);
-        }
-      }
-      Value::UnaryGreaterOrEqual(inner) => {
-        if let Value::Boolean(true) = eval_in_unary_greater_or_equal(left, inner.borrow()) {
-          return Value::Boolean(false);
-        }
-      }
-      _ => return value_null!("eval_in_negated_list"),
-    }
+  // `not(tests)` holds when none of the tests holds; the tests are the same as in the list
+  // without negation (values of every kind, comparisons, intervals and nested lists)
+  match eval_in_list(left, items) {
+    Value::Boolean(value) => Value::Boolean(!value),
+    _ => value_null!("eval_in_negated_list"),
   }
-  Value::Boolean(true)
 }
 
 ///
